@@ -26,17 +26,102 @@ from rsocket.transports.transport import Transport
 EPOCH = datetime(2020, 1, 1)
 
 
+def _td_us(x):
+    if isinstance(x, VDelta):
+        return x.us
+    return (x.days * 86400 + x.seconds) * 1000000 + x.microseconds
+
+
+class VDelta:
+    """S6: a duration as integer microseconds (exactly what a timedelta is), without datetime's field
+    normalisation - a symbolic timedelta costs tens of solver-seconds per path, an integer costs nothing"""
+    __slots__ = ('us',)
+
+    def __init__(self, us):
+        self.us = us
+
+    def total_seconds(self):
+        return self.us / 1000000
+
+    def __lt__(self, o):
+        return self.us < _td_us(o)
+
+    def __le__(self, o):
+        return self.us <= _td_us(o)
+
+    def __gt__(self, o):
+        return self.us > _td_us(o)
+
+    def __ge__(self, o):
+        return self.us >= _td_us(o)
+
+    def __eq__(self, o):
+        return isinstance(o, (VDelta, timedelta)) and self.us == _td_us(o)
+
+    def __hash__(self):
+        return 0
+
+    def __str__(self):
+        return 'VDelta(us)'
+
+
+class VTime:
+    """S6: an instant as integer microseconds of the virtual clock"""
+    __slots__ = ('us',)
+
+    def __init__(self, us):
+        self.us = us
+
+    def __add__(self, d):
+        return VTime(self.us + _td_us(d))
+
+    __radd__ = __add__
+
+    def __sub__(self, o):
+        if isinstance(o, VTime):
+            return VDelta(self.us - o.us)
+        return VTime(self.us - _td_us(o))
+
+    def __lt__(self, o):
+        return self.us < o.us
+
+    def __le__(self, o):
+        return self.us <= o.us
+
+    def __gt__(self, o):
+        return self.us > o.us
+
+    def __ge__(self, o):
+        return self.us >= o.us
+
+    def __eq__(self, o):
+        return isinstance(o, VTime) and self.us == o.us
+
+    def __hash__(self):
+        return 0
+
+
+def _vtimedelta(*a, **kw):
+    """stand-in for `timedelta` where the library builds a duration from a received integer:
+    timedelta(milliseconds=n) -> VDelta(n*1000); anything else is the real timedelta"""
+    if not a and list(kw) == ['milliseconds']:
+        return VDelta(kw['milliseconds'] * 1000)
+    return timedelta(*a, **kw)
+
+
 class Clock:
-    """S6: wall clock tied to the virtual loop clock"""
+    """S6: wall clock tied to the virtual loop clock (both clocks advance together)"""
     loop = None
 
     @classmethod
     def now(cls):
-        return EPOCH + timedelta(microseconds=cls.loop.now_us())
+        return VTime(cls.loop.now_us())
 
 
 _rc.datetime = Clock
 _rl.datetime = Clock
+import rsocket.rsocket_base as _rb  # noqa: E402
+_rb.timedelta = _vtimedelta
 
 
 def new_loop():
